@@ -430,6 +430,8 @@ pub struct Gui<'a> {
     pub debug_on: bool,
     /// who is blamed if the engine's position differs from the model at the next idle point
     pub blame_idle: (&'static str, &'static str),
+    /// per search: (root FEN, last reported score as text, bestmove)
+    pub summaries: Vec<(String, String, String)>,
 }
 
 fn fail_to_violation(f: Fail, focus_prop: &str, context: &str) -> V {
@@ -454,7 +456,7 @@ fn panic_site(msg: &str) -> String {
 impl<'a> Gui<'a> {
     pub fn start(knobs: &Knobs, focus: &str, res: &'a mut RunResult) -> Result<Gui<'a>, V> {
         let sess = Session::start(knobs).map_err(|f| fail_to_violation(f, "C07", "engine start-up"))?;
-        let mut g = Gui { sess, cur: CurPos::startpos(), res, log: Fnv::default(), shape: Fnv::default(), knobs: knobs.clone(), last_best: None, focus: focus.to_string(), clock_ns: 1_000_000_000_000, debug_on: false, blame_idle: ("C09", "engine_position_changed") };
+        let mut g = Gui { sess, cur: CurPos::startpos(), res, log: Fnv::default(), shape: Fnv::default(), knobs: knobs.clone(), last_best: None, focus: focus.to_string(), clock_ns: 1_000_000_000_000, debug_on: false, blame_idle: ("C09", "engine_position_changed"), summaries: Vec::new() };
         g.absorb_events(None)?;
         Ok(g)
     }
@@ -787,6 +789,8 @@ impl<'a> Gui<'a> {
         self.absorb_events(None)?;
         if let Some(b) = &win.best {
             self.last_best = Some(b.clone());
+            let score = win.infos.iter().rev().find_map(|i| i.score_mate.map(|m| format!("mate {}", m)).or(i.score_cp.map(|c| format!("cp {}", c)))).unwrap_or_else(|| "none".into());
+            self.summaries.push((root.to_fen(), score, b.0.clone()));
         }
         if !self.sess.over {
             for l in &c.post_lines {
@@ -877,8 +881,16 @@ impl<'a> Gui<'a> {
         if win.stop_delivered_at.is_some() {
             self.res.bump("probe.interrupted_search_answered");
         }
+        // ---- C10 draw rules: bounds from the reference search with draw leaves valued -c / +c
+        if self.focus == "C10" && !legal.is_empty() {
+            if let Some(d) = c.go.depth {
+                if (1..=3).contains(&d) && c.events.is_empty() && !c.stop_before_dequeue && refchess::occurrences(&self.cur.line, Pos::key) < 3 {
+                    self.check_draw_rules(root, rg, d as u32, win, &ctx)?;
+                }
+            }
+        }
         // ---- C08 exactness for shallow fixed-depth searches
-        let exact_focus = matches!(self.focus.as_str(), "C08" | "C09" | "C16x");
+        let exact_focus = matches!(self.focus.as_str(), "C08" | "C09" | "C11");
         if exact_focus && !legal.is_empty() {
             if let Some(d) = c.go.depth {
                 let plain = (1..=3).contains(&d) && c.events.is_empty() && !c.stop_before_dequeue && c.go.movetime.is_none() && c.go.wtime.is_none() && c.go.btime.is_none();
@@ -944,6 +956,89 @@ impl<'a> Gui<'a> {
                     }
                 }
             }
+        }
+        Ok(())
+    }
+
+    fn check_draw_rules(&mut self, root: &Pos, rg: &RefGo, d: u32, win: &SearchWindow, ctx: &str) -> Result<(), V> {
+        let contempt = verif::default_contempt().abs();
+        let sm: Option<Vec<Mv>> = if rg.searchmoves.is_empty() { None } else { Some(rg.searchmoves.iter().filter_map(|m| Mv::parse(m)).collect()) };
+        // the two conventions for "same position" (FEN e.p. field vs. FIDE) must agree on this game,
+        // otherwise the case is ambiguous and skipped
+        if refchess::occurrences(&self.cur.line, Pos::key) != refchess::occurrences(&self.cur.line, Pos::key_fide) {
+            self.res.bump("probe.ep_convention_ambiguous_skipped");
+            return Ok(());
+        }
+        let mut bound = |draw: i32, res: &mut RunResult| -> Option<(i32, u64)> {
+            let mut ev = |p: &Pos| -> i32 {
+                if p.half >= 100 {
+                    return 0; // fifty-move rule: 100 plies without capture or pawn move
+                }
+                match Bitboard::from_fen_string(&p.to_fen()) {
+                    Ok(b) => verif::evaluate_ongoing(&b),
+                    Err(_) => 0,
+                }
+            };
+            let mut rs = RefSearch::new(&mut ev, verif::win_score(), self.cur.line.clone());
+            rs.draw_root_view = Some(draw);
+            rs.node_budget = 2_000_000;
+            let (v, _) = rs.root(d, sm.as_deref());
+            if rs.exhausted {
+                res.bump("probe.reference_budget_exhausted");
+                return None;
+            }
+            Some((v, rs.rep_leaves))
+        };
+        let (lo, reps) = match bound(-contempt, self.res) {
+            Some(x) => x,
+            None => return Ok(()),
+        };
+        let (hi, _) = match bound(contempt, self.res) {
+            Some(x) => x,
+            None => return Ok(()),
+        };
+        let last = win.infos.iter().rev().find(|i| i.score_cp.is_some() || i.score_mate.is_some());
+        let root_bb = Bitboard::from_fen_string(&root.to_fen()).map_err(|e| viol("C12", "legal_fen_rejected", format!("{:?}", e)))?;
+        let got = match last {
+            Some(i) => {
+                if let Some(m) = i.score_mate {
+                    Score::Mate { mate_in: m as i32 }
+                } else {
+                    Score::Centipawn { score: i.score_cp.unwrap_or(0) as i32 }
+                }
+            }
+            None => return Err(viol("C08", "no_score_reported", format!("{}: no info line with a score", ctx))),
+        };
+        let clock_region = root.half + d >= 100;
+        let history_len = self.cur.line.len();
+        self.res.bump("draw_rule_comparisons");
+        if reps > 0 {
+            self.res.bump("probe.repetition_leaf_in_reference_tree");
+        }
+        if root.half + d >= 50 && !clock_region {
+            self.res.bump("probe.clock_between_50_and_99");
+        }
+        let ok = match (verif::score_from_value(lo, &root_bb), verif::score_from_value(hi, &root_bb), got) {
+            (Score::Centipawn { score: l }, Score::Centipawn { score: h }, Score::Centipawn { score: g }) => l <= g && g <= h,
+            (l, h, g) => l == g || h == g,
+        };
+        if clock_region {
+            // at or beyond 100 plies the property only says a draw value MAY appear: observational
+            self.res.bump(if ok { "probe.fifty_move_region_agrees" } else { "probe.fifty_move_region_differs" });
+            return Ok(());
+        }
+        if !ok {
+            let class = if reps == 0 && (lo == hi) {
+                if root.half + d >= 40 && matches!(got, Score::Centipawn { score: 0 }) {
+                    "fifty_move_draw_too_early"
+                } else {
+                    "value_differs_without_draw_in_reach"
+                }
+            } else {
+                "repetition_value_out_of_bounds"
+            };
+            return Err(viol("C10", class, format!("{}: engine reports {:?}; reference depth-{} value lies in [{}, {}] (draw leaves valued -/+{} contempt, {} repetition leaves, half-move clock {} at the root, {} positions of history)", ctx, got, d, lo, hi, contempt, reps, root.half, history_len))
+                .with("clock_ge_50", json!(root.half + d >= 50)));
         }
         Ok(())
     }
@@ -1241,6 +1336,23 @@ pub fn gen_plan_exact(seed: u64, thorough: bool, pool: &[Pos], mates: &[(Pos, u3
             cycles.push(Cycle { newgame: rng.chance(1, 3), pos: PosSpec::Set { fen: Some(p.to_fen()), moves: vec![] }, pre_lines: vec![], go: g, ns_per_node: 1000, gap_ns: 1_000_000, jumps: vec![], stop_before_dequeue: false, events: vec![], post_lines: vec![] });
             continue;
         }
+        // "irrespective of what was searched before on the same engine instance": re-search the
+        // same position (or the one two plies down the engine's own line) at another, usually
+        // smaller, depth right after a deeper search
+        if ci > 0 && rng.chance(1, 3) {
+            if let Some(prev) = cycles.last().cloned() {
+                let pd = prev.go.depth.unwrap_or(1);
+                let mut g = GoSpec::depth(if pd > 1 && rng.chance(2, 3) { 1 + rng.below(pd - 1) } else { 1 + rng.below(3) });
+                g.layout = rng.next_u64();
+                let pos = match rng.below(3) {
+                    0 => PosSpec::Keep,
+                    1 => prev.pos.clone(),
+                    _ => PosSpec::Follow { reply: rng.below(64) as u32 },
+                };
+                cycles.push(Cycle { newgame: false, pos, pre_lines: vec![], go: g, ns_per_node: 1000, gap_ns: 1_000_000, jumps: vec![], stop_before_dequeue: false, events: vec![], post_lines: vec![] });
+                continue;
+            }
+        }
         let mut game = random_game(&mut rng, pool, 12, false);
         // the property wants clocks far from the fifty-move limit and no repetition history
         let mut tries = 0;
@@ -1261,6 +1373,58 @@ pub fn gen_plan_exact(seed: u64, thorough: bool, pool: &[Pos], mates: &[(Pos, u3
         cycles.push(Cycle { newgame: ci == 0 || rng.chance(1, 4), pos: PosSpec::Set { fen: game.fen.clone(), moves: game.moves.clone() }, pre_lines: vec![], go: g, ns_per_node: *rng.pick(&[1u64, 1000, 1_000_000]), gap_ns: 1_000_000, jumps: vec![], stop_before_dequeue: false, events: vec![], post_lines: vec![] });
     }
     EnginePlan { focus: "C08".into(), knobs, cycles, enumerate_interrupts: false, twin: false }
+}
+
+/// C11: exactness-style sessions (no searchmoves) run on a position and its colour-flipped twin.
+pub fn gen_plan_twin(seed: u64, thorough: bool, pool: &[Pos], mates: &[(Pos, u32)]) -> EnginePlan {
+    let mut p = gen_plan_exact(seed, thorough, pool, mates);
+    let mut rng = Rng::new(seed ^ 0x7717);
+    for c in p.cycles.iter_mut() {
+        c.go.searchmoves_picks.clear();
+        // some cycles with longer, repetition-laden histories (symmetry must hold there too)
+        if rng.chance(1, 4) {
+            let g = random_game(&mut rng, pool, 16, true);
+            if g.root().has_legal_move() {
+                c.pos = PosSpec::Set { fen: g.fen.clone(), moves: g.moves.clone() };
+                c.go.depth = Some(1 + rng.below(if piece_count(g.root()) > 16 { 2 } else { 3 }));
+            }
+        }
+    }
+    p.focus = "C11".into();
+    p.twin = true;
+    p
+}
+
+/// C10: histories with repetitions and clocks 0..150 in materially imbalanced positions.
+pub fn gen_plan_draw(seed: u64, thorough: bool, imbalanced: &[Pos]) -> EnginePlan {
+    let mut rng = Rng::new(seed);
+    let knobs = Knobs { poll_interval: *rng.pick(POLL_INTERVALS), tt_capacity: *rng.pick(TT_CAPS) };
+    let n = 2 + rng.usize_below(if thorough { 6 } else { 3 });
+    let mut cycles = Vec::new();
+    for ci in 0..n {
+        // start position: imbalanced pool entry, clock drawn from 0..150 half the time
+        let mut start = rng.pick(imbalanced).clone();
+        if rng.chance(1, 2) && start.ep.is_none() {
+            start.half = rng.below(151) as u32;
+            let ply = 2 * (start.full as u64 - 1) + if start.white_to_move { 0 } else { 1 };
+            if (start.half as u64) > ply {
+                start.full = start.half / 2 + 2;
+            }
+        }
+        let one = [start];
+        let max_len = *rng.pick(&[0usize, 4, 8, 12, 24]);
+        let game = random_game(&mut rng, &one, max_len, true);
+        let root = game.root().clone();
+        let legal = root.legal_moves();
+        let mut go = GoSpec::depth(1 + rng.below(if piece_count(&root) > 12 { 2 } else { 3 }));
+        go.layout = rng.next_u64();
+        if !legal.is_empty() && rng.chance(1, 2) {
+            go.depth = Some(1);
+            go.searchmoves_picks = vec![rng.below(256) as u32];
+        }
+        cycles.push(Cycle { newgame: ci == 0 || rng.chance(1, 4), pos: PosSpec::Set { fen: game.fen.clone(), moves: game.moves.clone() }, pre_lines: vec![], go, ns_per_node: 1000, gap_ns: 1_000_000, jumps: vec![], stop_before_dequeue: false, events: vec![], post_lines: vec![] });
+    }
+    EnginePlan { focus: "C10".into(), knobs, cycles, enumerate_interrupts: false, twin: false }
 }
 
 /// C09: one plan = position + go; every poll of a dry run is an interruption point.
@@ -1286,6 +1450,54 @@ pub fn gen_plan_interrupt(seed: u64, thorough: bool, pool: &[Pos]) -> EnginePlan
 }
 
 // ------------------------------------------------------------------ execution
+
+fn flip_plan(plan: &EnginePlan) -> EnginePlan {
+    let mut p = plan.clone();
+    for c in p.cycles.iter_mut() {
+        if let PosSpec::Set { fen, moves } = &mut c.pos {
+            let start = match fen {
+                None => Pos::start(),
+                Some(f) => Pos::from_fen(f).unwrap_or_else(|_| Pos::start()),
+            };
+            *fen = Some(start.flip().to_fen());
+            for m in moves.iter_mut() {
+                *m = refchess::flip_uci(m);
+            }
+        }
+    }
+    p
+}
+
+/// C11 twin mode: engine A plays the session, engine B the colour-flipped session.
+fn run_twin(plan: &EnginePlan, res: &mut RunResult) -> Result<(u64, u64, u64), V> {
+    let mut sums: Vec<Vec<(String, String, String)>> = Vec::new();
+    let mut out = (0, 0, 0);
+    for p in [plan.clone(), flip_plan(plan)] {
+        let mut gui = Gui::start(&p.knobs, &p.focus, res)?;
+        for c in &p.cycles {
+            gui.cycle(c)?;
+        }
+        gui.finish()?;
+        out = (out.0 ^ gui.log.0, out.1 ^ gui.shape.0, out.2 + gui.sess.sched.lock().last_now_ns.saturating_sub(1_000_000_000_000));
+        sums.push(std::mem::take(&mut gui.summaries));
+    }
+    if sums[0].len() != sums[1].len() {
+        return Err(viol("C11", "twin_sessions_differ_in_length", format!("{} vs {} searches", sums[0].len(), sums[1].len())));
+    }
+    for (a, b) in sums[0].iter().zip(sums[1].iter()) {
+        res.bump("twin_comparisons");
+        if a.1.starts_with("mate") {
+            res.bump("probe.twin_mate_score");
+        }
+        if a.1 != b.1 {
+            return Err(viol("C11", "search_score_not_colour_symmetric", format!("position {} scores [{}] (bestmove {}), its colour-flipped twin {} scores [{}] (bestmove {})", a.0, a.1, a.2, b.0, b.1, b.2)).with("mate", json!(a.1.starts_with("mate") || b.1.starts_with("mate"))));
+        }
+        if (a.2 == "0000") != (b.2 == "0000") {
+            return Err(viol("C11", "twin_bestmove_nullness_differs", format!("{} -> {}, twin {} -> {}", a.0, a.2, b.0, b.2)));
+        }
+    }
+    Ok(out)
+}
 
 fn run_session(plan: &EnginePlan, res: &mut RunResult) -> Result<(u64, u64, u64), V> {
     let mut gui = Gui::start(&plan.knobs, &plan.focus, res)?;
@@ -1377,7 +1589,13 @@ fn run_enumeration(plan: &EnginePlan, res: &mut RunResult) -> Result<(u64, u64, 
 pub fn exec_plan(plan: &EnginePlan) -> RunResult {
     let mut res = RunResult::default();
     let focus = plan.focus.clone();
-    let out = if plan.enumerate_interrupts { run_enumeration(plan, &mut res) } else { run_session(plan, &mut res) };
+    let out = if plan.enumerate_interrupts {
+        run_enumeration(plan, &mut res)
+    } else if plan.twin {
+        run_twin(plan, &mut res)
+    } else {
+        run_session(plan, &mut res)
+    };
     res.steps = res.counters.get("lines_fed").copied().unwrap_or(0);
     res.nontrivial = res.counters.get("searches").copied().unwrap_or(0) >= 1;
     match out {
